@@ -138,7 +138,7 @@ inductive Out
   | popped (found : Bool)
   | stored
   | error (e : Err)
-  deriving Repr
+  deriving DecidableEq, Repr
 
 abbrev Cache := List (QKey × Translator)
 
